@@ -141,9 +141,29 @@ def main():
         # data flow of the converter argument
         for st_ in tree.body:
             if isinstance(st_, ast.FunctionDef) and st_.name in ("get_converter", "register_hooks"):
+                # a call through a loop variable that ranges over a local tuple / list literal of names is the calls of those
+                # names, in order (registration driven by a table instead of repeated statements)
+                local_seq = {}
+                for n in ast.walk(st_):
+                    if isinstance(n, ast.Assign) and len(n.targets) == 1 and isinstance(n.targets[0], ast.Name) \
+                            and isinstance(n.value, (ast.Tuple, ast.List)) and all(isinstance(e, (ast.Name, ast.Attribute)) for e in n.value.elts):
+                        local_seq[n.targets[0].id] = [ast.unparse(e) for e in n.value.elts]
+                loop_vars = {}
+                for n in ast.walk(st_):
+                    if isinstance(n, ast.For) and isinstance(n.target, ast.Name):
+                        it = n.iter
+                        if isinstance(it, ast.Name) and it.id in local_seq:
+                            loop_vars[n.target.id] = local_seq[it.id]
+                        elif isinstance(it, (ast.Tuple, ast.List)) and all(isinstance(e, (ast.Name, ast.Attribute)) for e in it.elts):
+                            loop_vars[n.target.id] = [ast.unparse(e) for e in it.elts]
                 for n in ast.walk(st_):
                     if isinstance(n, ast.Call):
-                        flow.append((fn, st_.name, ast.unparse(n.func)[:60]))
+                        f_ = ast.unparse(n.func)[:60]
+                        if isinstance(n.func, ast.Name) and n.func.id in loop_vars:
+                            for callee in loop_vars[n.func.id]:
+                                flow.append((fn, st_.name, callee[:60]))
+                        else:
+                            flow.append((fn, st_.name, f_))
     out = ["-- generated by tools/extract/x_hist.py", "import LspVerif.Core.Hist", "open LspVerif LspVerif.Hist", "namespace Gen"]
     t3 = lambda xs: lean_list(f"({lean_name(a)}, {lean_name(b)}, {lean_name(c)})" for a, b, c in xs)  # noqa: E731
     out.append(f"def hist : Scan := {{ bindings := {t3(bindings)}, globals := {t3(globals_)}, caches := {t3(decos + defaults)}, writes := {t3(sorted(set(writes)))}, captures := {t3(sorted(set(captures)))}, flow := {t3(flow)} }}")
